@@ -247,6 +247,30 @@ func (t *Tx) SortUnconfirmedTx() (map[string]*pb.Transaction, TxGraph, map[strin
 			txGraph[refTxID] = append(txGraph[refTxID], txID)
 		}
 	}
+	// a tx that only read a key version must be ordered before the tx that overwrites that version,
+	// otherwise a block packed in this order is refused by nodes that replay it
+	readers := map[string][]string{} // key version -> txs that read it without writing the key
+	writers := map[string]string{}   // key version -> tx that supersedes it
+	for txID, tx := range txMap {
+		written := map[string]bool{}
+		for _, txOut := range tx.TxOutputsExt {
+			written[txOut.Bucket+"/"+string(txOut.Key)] = true
+		}
+		for _, txIn := range tx.TxInputsExt {
+			rawKey := txIn.Bucket + "/" + string(txIn.Key)
+			version := fmt.Sprintf("%s@%x_%d", rawKey, txIn.RefTxid, txIn.RefOffset)
+			if written[rawKey] {
+				writers[version] = txID
+			} else {
+				readers[version] = append(readers[version], txID)
+			}
+		}
+	}
+	for version, writer := range writers {
+		for _, reader := range readers[version] {
+			txGraph[reader] = append(txGraph[reader], writer)
+		}
+	}
 	txMapSize := int64(len(txMap))
 	if txMapSize > 0 {
 		avgDelay := totalDelay / txMapSize //平均unconfirm滞留时间
